@@ -68,14 +68,14 @@ theorem wf_of_parts (isReq : Bool) (lim : Int) (P R : List Field) (clv : List Na
     (hP1 : ∀ f ∈ P, isPseudoName f.1 = true ∧ f.1 ∈ allowedPseudo isReq ∧ ∀ b ∈ f.2, fieldValueByte b = true)
     (hP2 : (P.map Prod.fst).Nodup)
     (hR : ∀ f ∈ R, RegOK f ∨ (f.1 = nContentLength ∧ f.2 = clv))
-    (hclv : clv ≠ [] ∧ ∀ b ∈ clv, isDigitByte b = true)
+    (hclv : clv ≠ [] ∧ ∀ b ∈ clv, isDigitByte b = true) (hfit : decVal clv < 2 ^ 63)
     (hsize : sectionSize (P ++ R) ≤ lim) : WellFormed isReq lim (P ++ R) := by
   obtain ⟨c1, c2, c3, c4, c5⟩ := cl_name_facts
   have hRnp : ∀ f ∈ R, isPseudoName f.1 = false := by
     intro f hf; rcases hR f hf with h | ⟨h, _⟩
     · exact h.1
     · rw [h]; exact c1
-  refine ⟨?_, ?_, ?_, ?_, ?_, ?_, ?_, ?_, ?_, hsize⟩
+  refine ⟨?_, ?_, ?_, ?_, ?_, ?_, ?_, ?_, ?_, ?_, hsize⟩
   · intro f hf hnp
     rcases List.mem_append.mp hf with hf | hf
     · rw [(hP1 f hf).1] at hnp; cases hnp
@@ -130,5 +130,13 @@ theorem wf_of_parts (isReq : Bool) (lim : Int) (P R : List Field) (clv : List Na
         · exact absurd hfn h.2.2.2.2.2.2
         · exact h
     rw [this]; exact ⟨hclv.1, hclv.2⟩
+  · intro f hf hfn
+    have : f.2 = clv := by
+      rcases List.mem_append.mp hf with hf | hf
+      · exact absurd hfn (pseudo_not_cl _ (hP1 f hf).1)
+      · rcases hR f hf with h | ⟨_, h⟩
+        · exact absurd hfn h.2.2.2.2.2.2
+        · exact h
+    rw [this]; exact hfit
 
 end Uquic.Proofs.Fields
